@@ -50,6 +50,9 @@ func TestVerifC44(t *testing.T) {
 	defer out.Close()
 	n := vN()
 
+	// the callers: every list endpoint through the real router (zz_verif_c44ep_test.go)
+	vC44Endpoints(t, r, out)
+
 	boundary := []string{"", "0", "1", "2", "3", "7", "10", "99", "100", "101", "00", "007", "2147483647", "2147483648",
 		"4294967296", "9223372036854775807", "18446744073709551616", "99999999999999999999999", "-1", "+1", "1_0", " 1", "1 ",
 		"a", "1a", "0x10", "١", "1.0", "1e3", "\x00", "٣"}
